@@ -159,6 +159,8 @@ def iter_dump(path):
 
 def _state(lines):
     text = '\n'.join(lines)
+    if not text.startswith('/\\'):
+        text = '/\\ ' + text   # a single-variable state is printed without the bullet
     parts = re.split(r'(?:^|\n)/\\ ([A-Za-z_][A-Za-z0-9_]*) = ', text)
     # parts: ['', name1, val1, name2, val2...]
     out = {}
